@@ -34,6 +34,7 @@ type Fault struct {
 	K     int    `json:"k"`     // 1-based call index, counted per handle kind across the scenario (per run when Run>0)
 	Class string `json:"class"` // fatal deadline zero
 	Run   int    `json:"run"`   // 0: any run; n: only the n-th run (by order of sink creation)
+	With  *Reply `json:"with"`  // write faults: a reply to the PREVIOUS probe of the flow that the receiver handles while this write is failing
 }
 
 // Inject is a packet put on the wire at an absolute scenario time rather than in answer to a probe.
@@ -55,6 +56,7 @@ type Script struct {
 	FloodN      int                `json:"flood_n"`  // irrelevant packets injected per flood tick
 	FloodUs     int64              `json:"flood_us"` // tick period
 	FloodKind   string             `json:"flood_kind"`
+	FloodAtOpen bool               `json:"flood_at_open"` // start the flood when the capture handle is opened (before any probe)
 	SackPerm    bool               `json:"sack_perm"`
 	SackTS      bool               `json:"sack_ts"`
 	NoSynack    bool               `json:"no_synack"`
@@ -117,6 +119,7 @@ type Wire struct {
 	FloodArrived, FloodDelivered int
 	Millis                       bool
 	seeded                       bool
+	floodOn                      bool
 }
 
 type flowState struct {
@@ -319,6 +322,10 @@ func (w *Wire) newSource() (packets.Source, error) {
 	if w.script.Unsync && w.script.TVariant != "sack" {
 		w.seedUnsync(40000, 0)
 	}
+	if w.script.FloodAtOpen && w.script.FloodN > 0 && !w.floodOn {
+		w.floodOn = true
+		w.startFlood(&flowState{fl: Flow{Local: mustAddr(w.script.TLocal), Target: mustAddr(w.script.TTarget)}})
+	}
 	return (*source)(h), nil
 }
 
@@ -350,10 +357,16 @@ func (s *sink) WriteTo(buf []byte, ap netip.AddrPort) error {
 	return err
 }
 
+// ErrAborted is returned by every handle operation once the scenario has been stopped (watchdog).
+var ErrAborted = errors.New("harness: scenario aborted")
+
 func (s *sink) writeLocked(buf []byte, ap netip.AddrPort) (error, bool) {
 	w := s.w
 	w.mu.Lock()
 	defer w.mu.Unlock()
+	if w.stopped {
+		return ErrAborted, false
+	}
 	b := append([]byte(nil), buf...)
 	v := pkt.Describe(b)
 	if s.closed > 0 {
@@ -362,7 +375,19 @@ func (s *sink) writeLocked(buf []byte, ap netip.AddrPort) (error, bool) {
 	}
 	if cl, ok := w.fault("write", s.run); ok {
 		_ = cl
-		return SentinelForRun("write", s.run), false
+		eager := false
+		for _, f := range w.script.Faults {
+			if f.Op == "write" && f.With != nil && len(w.flows) > 0 {
+				fs := w.flows[len(w.flows)-1]
+				if prev, ok := fs.probes[v.TTL-1]; ok {
+					if enc, err := w.perFlow(*f.With, fs).Encode(prev, fs.fl); err == nil {
+						w.deliverLocked(enc, "onfault", v.TTL-1)
+						eager = true
+					}
+				}
+			}
+		}
+		return SentinelForRun("write", s.run), eager
 	}
 	fs := w.flowFor(b, v)
 	w.log("Send", "h", s.id, "run", s.run, "flow", fs.idx, "ttl", v.TTL, "to", ap.Addr().String(), "p", v)
@@ -422,7 +447,8 @@ func (w *Wire) flowFor(b []byte, v pkt.View) *flowState {
 	}
 	w.flows = append(w.flows, f)
 	w.scheduleInjects(f)
-	if f.idx == 0 && w.script.FloodN > 0 {
+	if f.idx == 0 && w.script.FloodN > 0 && !w.floodOn {
+		w.floodOn = true
 		w.startFlood(f)
 	}
 	return f
@@ -580,6 +606,13 @@ func (w *Wire) startFlood(f *flowState) {
 			switch w.script.FloodKind {
 			case "junk":
 				b = []byte{0x45, 0, 0, byte(n), 1, 2, 3}
+			case "synack_other": // SYN-ACKs of OTHER connections from the same target ip:port (sibling runs, other clients)
+				tp := uint16(w.script.TDPort)
+				if tp == 0 {
+					tp = 33434
+				}
+				ip := pkt.IP{Src: f.fl.Target, Dst: f.fl.Local, TTL: 60, Proto: 6}
+				b = pkt.BuildIP(ip, pkt.BuildTCP(ip.Src, ip.Dst, pkt.TCP{SPort: tp, DPort: uint16(2000 + n%3000), Flags: pkt.SYN | pkt.ACK, Seq: uint32(n), Ack: 77, Options: []byte{2, 4, 5, 0xb4, 4, 2}}))
 			case "foreign_tcp":
 				ip := pkt.IP{Src: mustAddr("192.0.2.50"), Dst: f.fl.Local, TTL: 60, Proto: 6}
 				if f.fl.Local.Is6() {
@@ -595,9 +628,9 @@ func (w *Wire) startFlood(f *flowState) {
 			}
 			w.deliverLocked(b, "flood", 0)
 		}
-		w.timers = append(w.timers, time.AfterFunc(period, tick))
+		time.AfterFunc(period, tick) // (not recorded: tick checks w.stopped itself)
 	}
-	w.timers = append(w.timers, time.AfterFunc(period, tick))
+	time.AfterFunc(period, tick)
 }
 
 // InjectRaw delivers bytes now (used by runners that drive the wire directly).
@@ -724,6 +757,10 @@ func (s *source) Read(buf []byte) (int, error) {
 	first := true
 	for {
 		w.mu.Lock()
+		if w.stopped {
+			w.mu.Unlock()
+			return 0, ErrAborted
+		}
 		if s.closed > 0 {
 			w.log("UseAfterClose", "h", s.id, "op", "read", "run", s.run)
 			w.mu.Unlock()
@@ -841,6 +878,14 @@ func (w *Wire) Stop() {
 	w.stopped = true
 	for _, t := range w.timers {
 		t.Stop()
+	}
+	for _, h := range w.handles {
+		if h.kind == "source" {
+			select {
+			case h.notify <- struct{}{}:
+			default:
+			}
+		}
 	}
 	for _, c := range w.accepted {
 		c.Close()
